@@ -77,6 +77,48 @@ theorem C42_sticky_run (dec : Nat → UInt8 → Bytes → Dec) (vers : UInt8 × 
     readMore dec vers k (runStream dec vers w) = ([], List.replicate k (some e)) :=
   C42_sticky dec vers _ e he k
 
+/-- **C42_short_record_rejected.**  A record whose body is shorter than the cipher family's minimum (explicit
+    nonce + tag for AEAD; roundUp(explicitIV + MAC + 1, blockSize) for CBC; the MAC for RC4) — injected, or a real
+    record with a shrunk length field — is rejected by decrypt's key-independent length checks, whatever the keyed
+    part would say: `readRecord` leaves a non-EOF error in `c.in.err` (bad_record_mac, or the alert that overrides
+    it), does not advance the sequence number and delivers nothing; by `C42_sticky` every later Read returns that
+    error and delivers nothing either, although for an application-data header the raw block sits in `c.input`. -/
+theorem C42_short_record_rejected (fam : Family) (inner : Nat → UInt8 → Bytes → Dec) (vers : UInt8 × UInt8)
+    (t : UInt8) (body rest : Bytes) (st : St) (fuel : Nat)
+    (hraw : st.raw = frame vers t body ++ rest) (hb : body.length < minLen fam)
+    (hmax : body.length ≤ maxCiphertext) :
+    ∃ e, (readRecord (decryptFam fam inner) vers (fuel + 1) st).err = some e ∧ e ≠ .eof ∧
+      (readRecord (decryptFam fam inner) vers (fuel + 1) st).seq = st.seq ∧
+      (readRecord (decryptFam fam inner) vers (fuel + 1) st).out = st.out ∧
+      ∀ k, readMore (decryptFam fam inner) vers k (readRecord (decryptFam fam inner) vers (fuel + 1) st)
+        = ([], List.replicate k (some e)) := by
+  have hn : body.length < 65536 := by unfold maxCiphertext at hmax; omega
+  have hd := hdr_dec body.length hn
+  obtain ⟨e, inp, hdisp, he⟩ := dispatch_fail t body.length
+  have hres : readRecord (decryptFam fam inner) vers (fuel + 1) st = { st with err := some e, input := inp } := by
+    rw [readRecord, hraw]
+    simp only [frame, List.cons_append]
+    simp only [hd]
+    rw [if_neg (by simp)]
+    rw [if_neg (by omega)]
+    rw [if_neg (by simp)]
+    simp only [List.take_left', List.take_left]
+    rw [decryptFam_short fam inner _ _ _ hb]
+    simp only [hdisp]
+    simp
+  refine ⟨e, ?_, he, ?_, ?_, ?_⟩
+  · rw [hres]
+  · rw [hres]
+  · rw [hres]
+  · intro k
+    exact C42_sticky _ _ _ e (by rw [hres]) k
+
+/-- with the length checks in front, the keyed part only has to be authentic (so every theorem above
+    applies to `decryptFam fam inner`) -/
+theorem C42_family_authentic (fam : Family) {inner : Nat → UInt8 → Bytes → Dec} {enc : Nat → UInt8 → Bytes → Bytes}
+    {sent : List (UInt8 × Bytes)} (ha : Authentic inner enc sent) : Authentic (decryptFam fam inner) enc sent :=
+  decryptFam_authentic fam ha
+
 /-- **C42_cbc_accepts_only_padded_and_maced.**  The CBC branch of decrypt (composed with C43's removePadding)
     accepts a record body only if the decrypted blocks carry VALID TLS padding (C43's specification `ValidPad`,
     through `C43_good_iff`) and the bytes in front of the padding are exactly `plaintext ++ MAC(seq, type, plaintext)`.
